@@ -115,46 +115,111 @@ Proof.
 Qed.
 
 (* ---------- terms that only read base (non-generated) columns ---------- *)
-Fixpoint base_only (sch : list col) (e : term) : Prop :=
+(* every column a term reads satisfies P *)
+Fixpoint term_all (P : nat -> Prop) (e : term) : Prop :=
   match e with
-  | TCol i => match nth_error sch i with Some c => gen c = None | None => True end
+  | TCol i => P i
   | TLit _ => True
-  | TAdd a b | TMul a b => base_only sch a /\ base_only sch b
+  | TAdd a b | TMul a b => term_all P a /\ term_all P b
   end.
 
+Lemma term_all_impl (P Q : nat -> Prop) e : (forall j, P j -> Q j) -> term_all P e -> term_all Q e.
+Proof. intros H. induction e; cbn; auto; intros [A B]; split; auto. Qed.
+
+Lemma eval_term_ext r1 r2 e :
+  term_all (fun j => nth j r1 CNull = nth j r2 CNull) e -> eval_term r1 e = eval_term r2 e.
+Proof.
+  induction e as [i|z|a IHa b IHb|a IHa b IHb]; cbn; intros H; auto.
+  - now rewrite H.
+  - destruct H. now rewrite IHa, IHb.
+  - destruct H. now rewrite IHa, IHb.
+Qed.
+
+(* column j of the schema is not a generated column (or does not exist) *)
+Definition base_col (sch : list col) (j : nat) : Prop :=
+  match nth_error sch j with Some c => gen c = None | None => True end.
+
+(* a generated column reads base columns and EARLIER generated columns only *)
 Definition wf_schema (sch : list col) : Prop :=
-  forall i c e, nth_error sch i = Some c -> gen c = Some e -> base_only sch e.
+  forall i c e, nth_error sch i = Some c -> gen c = Some e ->
+    term_all (fun j => (j < i)%nat \/ base_col sch j) e.
+
+Lemma set_nth_length {A} i (x : A) l : length (set_nth i x l) = length l.
+Proof. revert i. induction l as [|a l IH]; intros [|i]; cbn; auto. Qed.
+
+Lemma set_nth_other {A} i (x : A) l j : j <> i -> nth_error (set_nth i x l) j = nth_error l j.
+Proof.
+  revert i j. induction l as [|a l IH]; intros [|i] [|j] H; cbn; auto; try congruence.
+Qed.
+
+Lemma set_nth_same {A} i (x : A) l : (i < length l)%nat -> nth_error (set_nth i x l) i = Some x.
+Proof. revert i. induction l as [|a l IH]; intros [|i] H; cbn in *; try lia; auto. apply IH. lia. Qed.
+
+Lemma set_nth_int i v (row : list cell) : int_cell v -> Forall int_cell row -> Forall int_cell (set_nth i v row).
+Proof.
+  intros Hv H. revert i. induction H as [|a l Ha Hl IH]; intros [|i]; cbn; auto.
+Qed.
+
+Lemma fill_gen_from_length sch : forall i row, length (fill_gen_from sch i row) = length row.
+Proof.
+  induction sch as [|c sch IH]; intros i row; cbn; auto.
+  rewrite IH. destruct (gen c); auto. apply set_nth_length.
+Qed.
+
+Lemma fill_gen_from_int sch : forall i row, Forall int_cell row -> Forall int_cell (fill_gen_from sch i row).
+Proof.
+  induction sch as [|c sch IH]; intros i row H; cbn; auto.
+  apply IH. destruct (gen c); auto. apply set_nth_int; auto. apply int_cell_of_opt.
+Qed.
+
+(* the main invariant: full = pre ++ sch, the columns of pre (indices < i) are already final *)
+Lemma fill_gen_from_spec full : forall sch pre i row,
+  full = pre ++ sch -> length pre = i ->
+  let final := fill_gen_from sch i row in
+  (forall j, (j < i)%nat \/ base_col full j -> nth_error final j = nth_error row j) /\
+  (forall k c e, nth_error sch k = Some c -> gen c = Some e ->
+     term_all (fun j => (j < i + k)%nat \/ base_col full j) e -> (i + k < length row)%nat ->
+     nth (i + k) final CNull = cell_of_opt (eval_term final e)).
+Proof.
+  induction sch as [|c sch IH]; intros pre i row Hf Hl; cbn zeta.
+  - cbn. split; auto. intros k c e H. destruct k; discriminate.
+  - cbn [fill_gen_from].
+    set (row' := match gen c with Some e => set_nth i (cell_of_opt (eval_term row e)) row | None => row end).
+    assert (Hf' : full = (pre ++ [c]) ++ sch) by (rewrite <- app_assoc; exact Hf).
+    assert (Hl' : length (pre ++ [c]) = S i) by (rewrite app_length; cbn; lia).
+    destruct (IH (pre ++ [c]) (S i) row' Hf' Hl') as [I2 I3].
+    assert (Hci : nth_error full i = Some c).
+    { rewrite Hf, nth_error_app2 by lia. replace (i - length pre)%nat with 0%nat by lia. reflexivity. }
+    (* row' agrees with row away from i, and at base columns *)
+    assert (Hrow' : forall j, (j < i)%nat \/ base_col full j -> nth_error row' j = nth_error row j).
+    { intros j Hj. unfold row'. destruct (gen c) as [e0|] eqn:Eg; auto.
+      apply set_nth_other. destruct Hj as [Hj|Hj]; [lia|]. intros ->. unfold base_col in Hj. rewrite Hci in Hj. congruence. }
+    split.
+    + intros j Hj. rewrite I2; [now apply Hrow'|]. destruct Hj; [left; lia|now right].
+    + intros k c0 e Hk Hg Hrefs Hlt. destruct k as [|k].
+      * cbn in Hk. injection Hk as <-. rewrite Nat.add_0_r in *.
+        assert (Hrow'i : nth_error row' i = Some (cell_of_opt (eval_term row e))).
+        { unfold row'. rewrite Hg. now apply set_nth_same. }
+        rewrite nth_as_error, I2 by (left; lia). rewrite Hrow'i. f_equal.
+        apply eval_term_ext. eapply term_all_impl; [|exact Hrefs]. cbn beta. intros j Hj.
+        rewrite !nth_as_error. rewrite I2 by (destruct Hj; [left; lia|now right]). now rewrite Hrow'.
+      * replace (i + S k)%nat with (S i + k)%nat in * by lia.
+        apply (I3 k c0 e Hk Hg Hrefs). unfold row'. destruct (gen c); [rewrite set_nth_length|]; exact Hlt.
+Qed.
 
 Lemma fill_generated_base sch row i c :
   nth_error sch i = Some c -> gen c = None -> nth_error (fill_generated sch row) i = nth_error row i.
 Proof.
-  intros Hs Hg. unfold fill_generated. rewrite map2_nth_error, Hs. destruct (nth_error row i); auto. now rewrite Hg.
-Qed.
-
-Lemma eval_term_fill sch row e :
-  length row = length sch -> base_only sch e -> eval_term (fill_generated sch row) e = eval_term row e.
-Proof.
-  intros HL. induction e as [i|z|a IHa b IHb|a IHa b IHb]; cbn; intros H; auto.
-  - rewrite !nth_as_error. destruct (nth_error sch i) as [c|] eqn:Es.
-    + now rewrite (fill_generated_base sch row i c Es H).
-    + assert (nth_error row i = None) as -> by (apply nth_error_None; apply nth_error_None in Es; lia).
-      assert (nth_error (fill_generated sch row) i = None) as ->; auto.
-      unfold fill_generated. rewrite map2_nth_error, Es. reflexivity.
-  - destruct H. now rewrite IHa, IHb.
-  - destruct H. now rewrite IHa, IHb.
+  intros Hs Hg. unfold fill_generated.
+  destruct (fill_gen_from_spec sch sch [] 0%nat row eq_refl eq_refl) as [H _].
+  apply H. right. unfold base_col. now rewrite Hs.
 Qed.
 
 Lemma fill_generated_length sch row : length row = length sch -> length (fill_generated sch row) = length sch.
-Proof. intros H. unfold fill_generated. apply map2_length. auto. Qed.
+Proof. intros H. unfold fill_generated. now rewrite fill_gen_from_length. Qed.
 
 Lemma fill_generated_int sch row : Forall int_cell row -> Forall int_cell (fill_generated sch row).
-Proof.
-  intros H. apply Forall_forall. intros x Hx. apply In_nth_error in Hx. destruct Hx as [i Hi].
-  unfold fill_generated in Hi. rewrite map2_nth_error in Hi.
-  destruct (nth_error sch i) as [c|]; [|discriminate]. destruct (nth_error row i) as [y|] eqn:Ey; [|discriminate].
-  injection Hi as <-. destruct (gen c); [apply int_cell_of_opt|].
-  rewrite Forall_forall in H. apply H. eapply nth_error_In; eauto.
-Qed.
+Proof. apply fill_gen_from_int. Qed.
 
 (* a row produced by fill_generated satisfies "generated = expression" *)
 Lemma fill_generated_ok sch row :
@@ -163,10 +228,12 @@ Lemma fill_generated_ok sch row :
 Proof.
   intros Hwf HL Hint i c e Hs Hg.
   rewrite cells_convert by (now apply fill_generated_int).
-  rewrite (eval_term_fill sch row e HL (Hwf i c e Hs Hg)).
-  rewrite nth_as_error, nth_error_map. unfold fill_generated. rewrite map2_nth_error, Hs.
-  destruct (nth_error_same_length sch row i c (eq_sym HL) Hs) as [x Hx]. rewrite Hx. cbn. rewrite Hg.
-  apply convert_cell_of_opt.
+  destruct (fill_gen_from_spec sch sch [] 0%nat row eq_refl eq_refl) as [_ H].
+  assert (Hlt : (i < length row)%nat) by (rewrite HL; eapply nth_error_some_lt; eauto).
+  specialize (H i c e Hs Hg (Hwf i c e Hs Hg) Hlt). cbn in H. fold (fill_generated sch row) in H.
+  assert (Hn : nth i (map convert (fill_generated sch row)) None = convert (nth i (fill_generated sch row) CNull)).
+  { rewrite !nth_as_error, nth_error_map. destruct (nth_error (fill_generated sch row) i); reflexivity. }
+  rewrite Hn, H. apply convert_cell_of_opt.
 Qed.
 
 (* ---------- the property of a stored row ---------- *)
@@ -282,9 +349,6 @@ Proof.
   - eapply nullability_notnull; eauto.
 Qed.
 
-Lemma set_nth_length {A} i (x : A) l : length (set_nth i x l) = length l.
-Proof. revert i. induction l as [|a l IH]; intros [|i]; cbn; auto. Qed.
-
 Lemma apply_sets_length ign sch : forall sets row w,
   apply_sets ign sch row sets = Some w -> length w = length row.
 Proof.
@@ -340,28 +404,76 @@ Proof.
       constructor; auto.
 Qed.
 
+Lemma insert_by_id_forall (P : list (option Z) -> Prop) r : forall t, P r -> Forall P t -> Forall P (insert_by_id r t).
+Proof.
+  induction t as [|x t IH]; intros Hr Ht; cbn; [constructor; auto|].
+  inversion Ht as [|? ? Hx Ht']; subst.
+  destruct (nth 0 r None), (nth 0 x None); try (constructor; auto).
+  destruct (z <? z0); constructor; auto.
+Qed.
+
+Lemma replace_id_forall (P : list (option Z) -> Prop) k r : forall t, P r -> Forall P t -> Forall P (replace_id k r t).
+Proof.
+  induction t as [|x t IH]; intros Hr Ht; cbn; auto.
+  inversion Ht as [|? ? Hx Ht']; subst. destruct (opt_eqb (nth 0 x None) k); constructor; auto.
+Qed.
+
+Lemma odku_row_notnull sch chks sets old r :
+  shape_ok sch old -> odku_row sch chks sets old = Stored r -> shape_ok sch r.
+Proof.
+  intros [HLo Hno] H. unfold odku_row in H.
+  destruct (apply_sets false sch (map cell_of_opt old) sets) as [w|] eqn:Ea; [|discriminate].
+  assert (HLw : length w = length sch).
+  { rewrite (apply_sets_length _ _ _ _ _ Ea), map_length. auto. }
+  set (w1 := if row_eqb (map convert w) old then w else fill_generated sch w) in *.
+  assert (HL1 : length w1 = length sch).
+  { unfold w1. destruct (row_eqb (map convert w) old); auto. now apply fill_generated_length. }
+  destruct (existsb (check_false w1) chks); [discriminate|].
+  destruct (nullability false sch w1) as [w2|] eqn:En; [|discriminate]. injection H as <-. split.
+  - rewrite map_length. eapply nullability_length; eauto.
+  - eapply nullability_notnull; eauto.
+Qed.
+
+Lemma upsert_forall (P : list (option Z) -> Prop) sch chks rs sets t :
+  (forall r, insert_row false sch chks rs = Stored r -> P r) ->
+  (forall old r, P old -> odku_row sch chks sets old = Stored r -> P r) ->
+  Forall P t -> Forall P (fst (exec sch chks t (Upsert rs sets))).
+Proof.
+  intros Hi Hu Ht. cbn.
+  destruct (insert_row false sch chks rs) as [r| |e] eqn:Ei; cbn; auto.
+  destruct (find _ t) as [old|] eqn:Ef.
+  - apply find_some in Ef. destruct Ef as [Hin _].
+    assert (Pold : P old) by (rewrite Forall_forall in Ht; auto).
+    destruct (odku_row sch chks sets old) as [r'| |e] eqn:Eo; cbn; auto.
+    apply replace_id_forall; eauto.
+  - cbn. apply insert_by_id_forall; auto.
+Qed.
+
 Definition stmt_lengths_ok (sch : list col) (s : stmt) : Prop :=
-  match s with Insert _ rows => Forall (fun rs => length rs = length sch) rows | Update _ _ _ => True end.
+  match s with
+  | Insert _ rows => Forall (fun rs => length rs = length sch) rows
+  | Update _ _ _ => True
+  | Upsert rs _ => length rs = length sch
+  end.
 
 Theorem not_null_respected sch chks : forall h t,
   Forall (stmt_lengths_ok sch) h -> Forall (shape_ok sch) t -> Forall (shape_ok sch) (run sch chks t h).
 Proof.
   induction h as [|s h IH]; intros t Hh Ht; cbn; auto.
   inversion Hh as [|? ? Hs Hh']; subst. apply IH; auto.
-  destruct s as [ign rows|ign sets wh]; cbn.
+  destruct s as [ign rows|ign sets wh|rs sets]; [cbn|cbn|].
   - destruct (insert_rows ign sch chks rows t) as [t'|e] eqn:E; cbn; auto.
     eapply insert_rows_shape; eauto.
   - destruct (update_rows ign sch chks sets wh t) as [t'|e] eqn:E; cbn; auto.
     eapply update_rows_shape; eauto.
+  - apply upsert_forall; auto.
+    + intros r Hr. eapply insert_row_notnull; eauto.
+    + intros old r Ho Hr. eapply odku_row_notnull; eauto.
 Qed.
 
 (* ---------- UPDATE with typed right sides, no IGNORE ---------- *)
 Definition typed_rhs (x : urhs) : Prop := match x with URaw r => typed_raw r | UTerm _ => True end.
 
-Lemma set_nth_int i v (row : list cell) : int_cell v -> Forall int_cell row -> Forall int_cell (set_nth i v row).
-Proof.
-  intros Hv H. revert i. induction H as [|a l Ha Hl IH]; intros [|i]; cbn; auto.
-Qed.
 
 Lemma apply_sets_int sch : forall sets row w,
   Forall (fun p => typed_rhs (snd p)) sets -> Forall int_cell row ->
@@ -402,10 +514,45 @@ Proof.
 Qed.
 
 (* ---------- all histories of typed statements without IGNORE ---------- *)
+Lemma opt_eqb_eq a b : opt_eqb a b = true -> a = b.
+Proof. destruct a, b; cbn; try discriminate; auto. intros H. apply Z.eqb_eq in H. now subst. Qed.
+
+Lemma row_eqb_eq : forall a b, row_eqb a b = true -> a = b.
+Proof.
+  induction a as [|x a IH]; intros [|y b] H; cbn in H; try discriminate; auto.
+  apply andb_true_iff in H. destruct H as [H1 H2]. apply opt_eqb_eq in H1. apply IH in H2. congruence.
+Qed.
+
+Theorem odku_typed_row_ok sch chks sets old r :
+  wf_schema sch -> Forall (fun p => typed_rhs (snd p)) sets ->
+  row_ok sch chks old -> odku_row sch chks sets old = Stored r -> row_ok sch chks r.
+Proof.
+  intros Hwf Ht Hold H. pose proof Hold as (HLo & _). unfold odku_row in H.
+  destruct (apply_sets false sch (map cell_of_opt old) sets) as [w|] eqn:Ea; [|discriminate].
+  assert (HLw : length w = length sch).
+  { rewrite (apply_sets_length _ _ _ _ _ Ea), map_length. auto. }
+  assert (Hiw : Forall int_cell w) by (exact (apply_sets_int sch sets (cells old) w Ht (cells_int old) Ea)).
+  destruct (row_eqb (map convert w) old) eqn:E1.
+  - destruct (existsb (check_false w) chks); [discriminate|].
+    destruct (nullability false sch w) as [w2|] eqn:En; [|discriminate].
+    pose proof (nullability_strict_id _ _ _ HLw En) as ->. injection H as <-.
+    apply row_eqb_eq in E1. now rewrite E1.
+  - destruct (existsb (check_false (fill_generated sch w)) chks) eqn:Ec; [discriminate|].
+    assert (HL1 : length (fill_generated sch w) = length sch) by (now apply fill_generated_length).
+    destruct (nullability false sch (fill_generated sch w)) as [w2|] eqn:En; [|discriminate].
+    pose proof (nullability_strict_id _ _ _ HL1 En) as ->. injection H as <-.
+    split; [|split; [|split]].
+    + now rewrite map_length.
+    + apply checks_pass_ok; auto. now apply fill_generated_int.
+    + now apply notnull_from_strict.
+    + now apply fill_generated_ok.
+Qed.
+
 Definition typed_stmt (sch : list col) (s : stmt) : Prop :=
   match s with
   | Insert ign rows => ign = false /\ Forall (fun rs => length rs = length sch /\ Forall typed_raw rs) rows
   | Update ign sets _ => ign = false /\ Forall (fun p => typed_rhs (snd p)) sets
+  | Upsert rs sets => (length rs = length sch /\ Forall typed_raw rs) /\ Forall (fun p => typed_rhs (snd p)) sets
   end.
 
 Lemma insert_rows_ok sch chks : wf_schema sch -> forall rows acc t',
@@ -442,11 +589,14 @@ Theorem stored_rows_ok_typed_histories sch chks : wf_schema sch -> forall h t,
 Proof.
   intros Hwf. induction h as [|s h IH]; intros t Hh Ht; cbn; auto.
   inversion Hh as [|? ? Hs Hh']; subst. apply IH; auto.
-  destruct s as [ign rows|ign sets wh]; cbn in Hs; destruct Hs as [-> Hs]; cbn.
-  - destruct (insert_rows false sch chks rows t) as [t'|e] eqn:E; cbn; auto.
+  destruct s as [ign rows|ign sets wh|rs sets]; cbn in Hs.
+  - destruct Hs as [-> Hs]; cbn. destruct (insert_rows false sch chks rows t) as [t'|e] eqn:E; cbn; auto.
     eapply insert_rows_ok; eauto.
-  - destruct (update_rows false sch chks sets wh t) as [t'|e] eqn:E; cbn; auto.
+  - destruct Hs as [-> Hs]; cbn. destruct (update_rows false sch chks sets wh t) as [t'|e] eqn:E; cbn; auto.
     eapply update_rows_ok; eauto.
+  - destruct Hs as [[Hl Hr] Hs]. apply upsert_forall; auto.
+    + intros r Hi. eapply insert_typed_row_ok; eauto.
+    + intros old r Ho Hu. eapply odku_typed_row_ok; eauto.
 Qed.
 
 (* ---------- what is false of the faithful model ---------- *)
@@ -495,7 +645,7 @@ Lemma nonvacuous_example :
 Proof.
   split; [|split].
   - intros i c e Hs Hg. do 4 (destruct i as [|i]; cbn in Hs; [injection Hs as <-; cbn in Hg; try discriminate|]).
-    + injection Hg as <-. cbn. auto.
+    + injection Hg as <-. cbn. split; left; lia.
     + destruct i; discriminate.
   - repeat constructor.
   - vm_compute. reflexivity.
